@@ -79,10 +79,7 @@ func VH_C11_program() {
 	if H == "" {
 		H = "/h"
 	}
-	stmt := 0
-	on := func() bool {
-		i := stmt
-		stmt++
+	on := func(i int) bool {
 		if i < len(mask) && mask[i] == '1' {
 			return vx.Bool()
 		}
@@ -97,7 +94,7 @@ func VH_C11_program() {
 
 	autoHead := vx.Bool()
 	r.AutoHead(autoHead)
-	if on() { // 0
+	if on(0) { // 0
 		hs, ids := p.list(1 + vx.Choice(2))
 		r.Get("/p1", hs...)
 		p.expect("GET", "/p1", nil, ids)
@@ -107,18 +104,18 @@ func VH_C11_program() {
 	}
 	g1, g1ids := p.list(nh())
 	r.Group(G, func() {
-		if on() { // 1
+		if on(1) { // 1
 			hs, ids := p.list(1)
 			r.Post("/p2", hs...)
 			p.expect("POST", G+"/p2", [][]int{g1ids}, ids)
 		}
-		if on() { // 2
+		if on(2) { // 2
 			autoHead = !autoHead
 			r.AutoHead(autoHead)
 		}
 		g2, g2ids := p.list(nh())
 		r.Group(H, func() {
-			if on() { // 3
+			if on(3) { // 3
 				hs, ids := p.list(1)
 				r.Get("/p3", hs...)
 				p.expect("GET", G+H+"/p3", [][]int{g1ids, g2ids}, ids)
@@ -127,7 +124,7 @@ func VH_C11_program() {
 				}
 			}
 			routesForm := 0
-			if on() { // 4
+			if on(4) { // 4
 				routesForm = 1 + vx.Choice(2)
 			}
 			switch routesForm {
@@ -143,7 +140,7 @@ func VH_C11_program() {
 				p.expect("GET", G+H+"/p4", [][]int{g1ids, g2ids}, ids)
 				p.expect("POST", G+H+"/p4", [][]int{g1ids, g2ids}, ids)
 			}
-			if on() { // 5
+			if on(5) { // 5
 				hs, ids := p.list(1)
 				r.Any("/p5", hs...)
 				for _, m := range vC11Methods {
@@ -151,7 +148,7 @@ func VH_C11_program() {
 				}
 			}
 		}, g2...)
-		if on() { // 6
+		if on(6) { // 6
 			common, cids := p.list(nh())
 			combo := r.Combo("/c", common...)
 			if vx.Bool() {
@@ -175,9 +172,20 @@ func VH_C11_program() {
 				p.expect("DELETE", G+"/c", [][]int{g1ids}, append(append([]int{}, cids...), ids...))
 			}
 		}
+		if on(9) { // an optional route for one method, then Any on its long form: the earlier route keeps that method
+			hs1, ids1 := p.list(1)
+			r.Post("/?o", hs1...)
+			hs2, ids2 := p.list(1)
+			r.Any("/o", hs2...)
+			for _, m := range vC11Methods {
+				p.expect(m, G+"/o", [][]int{g1ids}, ids2)
+			}
+			p.expect("POST", G+"/o", [][]int{g1ids}, ids1) // looked up last-wins: POST stays with the optional route
+			p.expect("POST", G, [][]int{g1ids}, ids1)
+		}
 	}, g1...)
 	vx.Assert(len(r.groups) == 0, "C11: leaving a group restores the enclosing scope")
-	if on() { // 7
+	if on(7) { // 7
 		hs, ids := p.list(1)
 		r.Get("/p7", hs...)
 		p.expect("GET", "/p7", nil, ids)
@@ -185,7 +193,7 @@ func VH_C11_program() {
 			p.expect("HEAD", "/p7", nil, ids)
 		}
 	}
-	if on() { // 8: a Combo outside any group
+	if on(8) { // 8: a Combo outside any group
 		common, cids := p.list(nh())
 		combo := r.Combo("/tc", common...)
 		if vx.Bool() {
@@ -209,7 +217,7 @@ func VH_C11_program() {
 	}
 
 	// ---- every (method, path) of the template, after the whole program ran
-	paths := []string{"/p1", G + "/p2", G + H + "/p3", G + H + "/p4", G + H + "/p5", G + "/c", "/p7", "/tc", "/p2", H + "/p3", G + "/p3", "/c", G + "/tc"}
+	paths := []string{"/p1", G + "/p2", G + H + "/p3", G + H + "/p4", G + H + "/p5", G + "/c", "/p7", "/tc", "/p2", H + "/p3", G + "/p3", "/c", G + "/tc", G + "/o", G, "/o"}
 	allOK := true
 	for _, path := range paths {
 		for _, m := range vC11Methods {
